@@ -253,6 +253,19 @@ def r_stmt(s, ind=""):
         i, n, kind = s["id"], s["n"], s["kind"]
         lab = (s["label"] + ": ") if s.get("label") else ""
         body = r_block(s["b"], i2)
+        if s.get("nn"):
+            # C02 part B, directed shapes: the loop runs NN times (NN and the array BIGA of NN
+            # elements are provided by the harness)
+            if kind == "for":
+                return "%s%sfor (var i%d=0; i%d<NN; i%d++) {\n%s\n%s}" % (ind, lab, i, i, i, body, ind)
+            if kind == "while":
+                return "%svar i%d=-1;\n%s%swhile (++i%d < NN) {\n%s\n%s}" % (ind, i, ind, lab, i, body, ind)
+            if kind == "dowhile":
+                return "%svar i%d=-1;\n%s%sdo {\n%si%d++;\n%s\n%s} while (i%d < NN-1);" % (ind, i, ind, lab, i2, i, body, ind, i)
+            if kind == "forin":
+                return "%svar i%d=-1;\n%s%sfor (var q%d in BIGA) {\n%si%d++;\n%s\n%s}" % (ind, i, ind, lab, i, i2, i, body, ind)
+            if kind == "forof":
+                return "%svar i%d=-1;\n%s%sfor (var q%d of BIGA) {\n%si%d++;\n%s\n%s}" % (ind, i, ind, lab, i, i2, i, body, ind)
         if kind == "for":
             return "%s%sfor (var i%d=0; i%d<%d; i%d++) {\n%s\n%s}" % (ind, lab, i, i, n, i, body, ind)
         if kind == "while":
@@ -747,7 +760,7 @@ def schedules_for(prog, D, rng, tier):
 
 
 def n_cases(tier):
-    return 1200 if tier == "quick" else 20000
+    return 1200 if tier == "quick" else 12000
 
 
 def gen_case(seed, i, tier="quick"):
